@@ -16,13 +16,18 @@ import time
 import traceback
 from collections import Counter
 
-WALL_TIMEOUT = float(os.environ.get("VERIF_RUN_WALL_TIMEOUT", "120"))
+WALL_TIMEOUT = float(os.environ.get("VERIF_RUN_WALL_TIMEOUT", "45"))
 
 
 def _child(fn, spec, wfd):
     try:
         faulthandler.enable()
+        # watchdog inside the child too, so that a spinning callback is diagnosed (and reported with its
+        # replay) rather than the child being killed from outside
+        signal.signal(signal.SIGALRM, _alarm)
+        signal.setitimer(signal.ITIMER_REAL, max(20.0, WALL_TIMEOUT / 3))
         res = fn(spec)
+        signal.setitimer(signal.ITIMER_REAL, 0)
     except BaseException as exc:  # noqa: harness failure, never a violation
         res = {
             "verdict": "harness_error",
@@ -194,11 +199,12 @@ class Aggregate:
         self.configs.update(d["configs"])
 
 
-class RunTimeout(BaseException):
-    pass
+from .loop import RunTimeout  # noqa: E402
 
 
 def _alarm(signum, frame):
+    from . import loop as _loop
+    _loop.watchdog_fired(frame)
     raise RunTimeout()
 
 
